@@ -478,14 +478,18 @@ def _bounded_more(ct, tier, seed):
         # (a) RMS spot size versus field = the spot-diagram RMS radius at the fields (0, Hy), Hy = linspace(0, 1, n)
         try:
             nf = 3
-            rv = analysis.RmsSpotSizeVsField(L, num_fields=nf, wavelengths=[pw], num_rings=3)
-            for i, Hy in enumerate(np.linspace(0, 1, nf)):
-                L.trace(0.0, float(Hy), pw, 3, 'hexapolar')
-                x, y = sg.x[-1].copy(), sg.y[-1].copy()
-                want = np.sqrt(np.mean((x - np.mean(x)) ** 2 + (y - np.mean(y)) ** 2))
-                cases += 1
-                note('C12.runtime.rms_spot_vs_field_is_spot_rms_at_each_field', eq(rv._spot_size[i][0], want) and eq(rv._field[i], (0.0, Hy)),
-                     '%s Hy=%s: %s vs %s' % (lname, Hy, rv._spot_size[i][0], want), inputs)
+            # every documented argument is honoured: default and non-default pupil sampling and ring / ray counts
+            for dist_, nr_ in (('hexapolar', 3), ('uniform', 7), ('random', 0)):
+                if dist_ == 'random':
+                    continue                                  # unseeded sampling: excluded by C13's statement
+                rv = analysis.RmsSpotSizeVsField(L, num_fields=nf, wavelengths=[pw], num_rings=nr_, distribution=dist_)
+                for i, Hy in enumerate(np.linspace(0, 1, nf)):
+                    L.trace(0.0, float(Hy), pw, nr_, dist_)
+                    x, y = sg.x[-1].copy(), sg.y[-1].copy()
+                    want = np.sqrt(np.mean((x - np.mean(x)) ** 2 + (y - np.mean(y)) ** 2))
+                    cases += 1
+                    note('C12.runtime.rms_spot_vs_field_is_spot_rms_at_each_field', eq(rv._spot_size[i][0], want) and eq(rv._field[i], (0.0, Hy)),
+                         '%s Hy=%s %s/%d: %s vs %s' % (lname, Hy, dist_, nr_, rv._spot_size[i][0], want), inputs)
         except Exception as ex:
             note('C12.runtime.rms_spot_vs_field_is_spot_rms_at_each_field', False, 'raised %s: %s' % (type(ex).__name__, ex), inputs)
         # (b) grid distortion: real chief-ray landing points over the field grid, predicted points from the small-field scale
